@@ -179,10 +179,8 @@ func (c *Cursor) Open(ctx context.Context, scope *ReferenceScope, name parser.Id
 		return NewPseudoCursorError(name)
 	}
 
-	c.mtx.Lock()
-	defer c.mtx.Unlock()
-
-	if c.view != nil {
+	// The mutex is not held while the query is evaluated: the query may refer to this cursor itself.
+	if c.IsOpen() == ternary.TRUE {
 		return NewCursorOpenError(name)
 	}
 
@@ -208,6 +206,12 @@ func (c *Cursor) Open(ctx context.Context, scope *ReferenceScope, name parser.Id
 		return err
 	}
 
+	c.mtx.Lock()
+	defer c.mtx.Unlock()
+
+	if c.view != nil {
+		return NewCursorOpenError(name)
+	}
 	c.view = view
 	c.index = -1
 	c.fetched = false
@@ -230,12 +234,12 @@ func (c *Cursor) Close(name parser.Identifier) error {
 }
 
 func (c *Cursor) Fetch(name parser.Identifier, position int, number int) ([]value.Primary, error) {
+	c.mtx.Lock()
+	defer c.mtx.Unlock()
+
 	if c.view == nil {
 		return nil, NewCursorClosedError(name)
 	}
-
-	c.mtx.Lock()
-	defer c.mtx.Unlock()
 
 	if !c.fetched {
 		c.fetched = true
@@ -281,11 +285,25 @@ func (c *Cursor) Fetch(name parser.Identifier, position int, number int) ([]valu
 	return list, nil
 }
 
+// lockForRead guards the status methods against a FETCH, OPEN or CLOSE of the same cursor running in another goroutine
+// (a cursor can be used from a function that a query calls once per record). It returns the unlock function.
+func (c *Cursor) lockForRead() func() {
+	if c.mtx == nil {
+		return func() {}
+	}
+	c.mtx.Lock()
+	return c.mtx.Unlock
+}
+
 func (c *Cursor) IsOpen() ternary.Value {
+	defer c.lockForRead()()
+
 	return ternary.ConvertFromBool(c.view != nil)
 }
 
 func (c *Cursor) IsInRange() (ternary.Value, error) {
+	defer c.lockForRead()()
+
 	if c.view == nil {
 		return ternary.FALSE, errCursorClosed
 	}
@@ -296,6 +314,8 @@ func (c *Cursor) IsInRange() (ternary.Value, error) {
 }
 
 func (c *Cursor) Count() (int, error) {
+	defer c.lockForRead()()
+
 	if c.view == nil {
 		return 0, errCursorClosed
 	}
@@ -303,5 +323,7 @@ func (c *Cursor) Count() (int, error) {
 }
 
 func (c *Cursor) Pointer() (int, error) {
+	defer c.lockForRead()()
+
 	return c.index, nil
 }
